@@ -45,3 +45,61 @@ func init() {
 		return nil
 	})
 }
+
+func init() {
+	reg("deviate-add-default-leaflist-alias", "C08/C06: adding a default to a leaf-list instance of a grouping does not disturb another instance", func() error {
+		base := `module b { namespace "urn:b"; prefix b;
+  grouping g { leaf-list ll { type string; default "a"; default "b"; default "c"; } }
+  container x { uses g; }
+  container y { uses g; }
+}`
+		dev := `module d { namespace "urn:d"; prefix d; import b { prefix b; }
+  deviation /b:x/b:ll { deviate add { default "X"; } }
+  deviation /b:y/b:ll { deviate add { default "Y"; } }
+}`
+		ms, errs := mustLoadProcess(base, dev)
+		if len(errs) > 0 {
+			return fmt.Errorf("process: %v", errs)
+		}
+		e := yang.ToEntry(ms.Modules["b"])
+		x := fmt.Sprint(e.Dir["x"].Dir["ll"].Default)
+		y := fmt.Sprint(e.Dir["y"].Dir["ll"].Default)
+		if x != "[a b c X]" || y != "[a b c Y]" {
+			return fmt.Errorf("x/ll defaults %s (want [a b c X]), y/ll defaults %s (want [a b c Y])", x, y)
+		}
+		return nil
+	})
+}
+
+func init() {
+	reg("uses-exts-alias", "C06: extensions written on one uses of a grouping do not show up on another uses of it", func() error {
+		m := `module m { namespace "urn:m"; prefix m;
+  extension e { argument a; }
+  grouping g { m:e g1; m:e g2; m:e g3; m:e g4; m:e g5; leaf l { type string; } }
+  container x { uses g { m:e X; } }
+  container y { uses g { m:e Y; } }
+}`
+		ms := yang.NewModules()
+		ms.ParseOptions.StoreUses = true
+		if err := ms.Parse(m, "m.yang"); err != nil {
+			return fmt.Errorf("parse: %v", err)
+		}
+		if errs := ms.Process(); len(errs) > 0 {
+			return fmt.Errorf("process: %v", errs)
+		}
+		e := yang.ToEntry(ms.Modules["m"])
+		ext := func(c string) string {
+			out := ""
+			for _, u := range e.Dir[c].Uses {
+				for _, s := range u.Grouping.Exts {
+					out += s.Argument + " "
+				}
+			}
+			return out
+		}
+		if x, y := ext("x"), ext("y"); x != "g1 g2 g3 g4 g5 X " || y != "g1 g2 g3 g4 g5 Y " {
+			return fmt.Errorf("extensions on x's uses: %q, on y's uses: %q", x, y)
+		}
+		return nil
+	})
+}
